@@ -325,6 +325,15 @@ def check_property(prop, tier, seed, keep=False, verbose=False):
                     undecided.append("%s: %s failed after the loop structure of %s changed (%s): contract table needs updating" % (
                         un, f["id"], f["fn"], "; ".join(ur.gen.shape_changed[f["fn"]])))
                     continue
+                lost = set(r["lost_guard"] for r in ur.gen.rewrites if "lost_guard" in r)
+                resurfaced = None
+                for k in kf.get("open", []):
+                    want = k["obligation"] if isinstance(k["obligation"], list) else [k["obligation"]]
+                    if k["id"] in lost and f["id"] in want:
+                        resurfaced = k["id"]
+                if resurfaced:
+                    undecided.append("%s: %s is the obligation of known finding %s, whose guard lost its anchor in the changed code (not a new violation; contract table needs updating)" % (un, f["id"], resurfaced))
+                    continue
                 ps = props_of_failure(unit, ur, f)
                 if prop in ps:
                     failed_obl += 1
